@@ -42,6 +42,16 @@ meta = {"property": pid, "breaks": am.get("summary"), "needs_to_manifest": am.ge
                       "what_was_run": "rig/seedcheck.sh: demo/run.sh on a scratch worktree before and after `git apply patch.diff`; rig/baseline.py (repository suite vs BASELINE.json) on the patched worktree; ./run %s quick with VERIF_REPO=<patched worktree>" % pid},
         "check_result": {"quick_rc": int(rc), "violations": int(n), "wall_s": int(e), "caught": int(n) > 0}}
 meta["kept"] = (int(d0) == 0 and int(d1) != 0 and int(b) == 0)
+import os
+if os.path.exists(out + "/meta.json"):
+    try:
+        prev = json.load(open(out + "/meta.json"))
+        if prev.get("first_check_result") or not prev.get("check_result", {}).get("caught"):
+            meta["first_check_result"] = prev.get("first_check_result") or prev.get("check_result")
+        if prev.get("caught_after"):
+            meta["caught_after"] = prev["caught_after"]
+    except ValueError:
+        pass
 json.dump(meta, open(out + "/meta.json", "w"), indent=1)
 print("SEED-RESULT %s kept=%s caught=%s" % (out, meta["kept"], meta["check_result"]["caught"]))
 PY
